@@ -1,7 +1,7 @@
 (* C05 property theorems: statements only; every proof is [exact lemma]. *)
 From Gv Require Import lib.Bytes lib.Gql C05.Lex C05.Parse C05.Limits C05.Print C05.Spec C05.Tokens
   C05.ProofsLex C05.ProofsLimits C05.ProofsParse C05.ProofsMisc C05.ProofsTotal C05.ProofsRoundtrip C05.ProofsWf
-  C05.ProofsFinal C05.ProofsInline C05.ProofsNul C05.PreFix gen.Anchors_C05.
+  C05.ProofsFinal C05.ProofsInline C05.ProofsNul C05.ProofsRequote C05.PreFix C15.Model gen.Anchors_C05.
 From Coq Require Import ZArith.
 
 (* the model uses the rune / keyword / identifier-keyword tables of the Go source, and the source has the repairs
@@ -136,6 +136,17 @@ Theorem c05_print_fixpoint_partial : forall ind b d r d' r',
   parse_bytes (print_doc ind d) = Ok d' r' -> print_doc ind d' = print_doc ind d.
 Proof. exact print_fixpoint_partial_proof. Qed.
 Print Assumptions c05_print_fixpoint_partial.
+
+(* since c15_fix_block-quote-next-to-whitespace and c05_fix_rt-block-string-edge the lexer and ast.PrintValue are
+   inverse to each other on block strings: for EVERY text [body] between two delimiters that the lexer delimits
+   ([go_block_lexable]: no NUL byte, the token ends at the closing delimiter that follows), the content the parser
+   stores ([stored], Literal.Start..End after the lexer's trimming), written by the printer between new delimiters
+   ([printed]: the content, and a line terminator if it ends in a quote or backslash), is delimited by the lexer again
+   and stored as the same content.  (Lexer side = C15's model of readBlockString; see Spec.v.) *)
+Theorem c05_block_string_requotable : forall body, go_block_lexable body = true ->
+  go_block_lexable (printed (stored body)) = true /\ stored (printed (stored body)) = stored body.
+Proof. exact block_requote_proof. Qed.
+Print Assumptions c05_block_string_requotable.
 
 (* HISTORICAL (PreFix.v: the lexer and printer before c05_fix_rt-nul-in-string,
    c15_fix_block-quote-next-to-whitespace and c05_fix_rt-block-string-edge): the round trip was false.
